@@ -39,10 +39,10 @@ def text(s):
 def scenarios(W):
     S = []
 
-    def add(name, plan, ending, close_args=(None, None), run_kwargs=None, hooks=None, raising=None, callbacks=None, app_kwargs=None):
+    def add(name, plan, ending, close_args=(None, None), run_kwargs=None, hooks=None, raising=None, callbacks=None, app_kwargs=None, url=None):
         trig = "close-from-callback" if name.startswith("close-") else "keyboard-interrupt" if name.startswith("keyboard") else "scripted"
         S.append(dict(name=name, trigger=trig, plan=plan, ending=ending, close_args=close_args, run_kwargs=run_kwargs or {}, hooks=hooks or {},
-                      raising=raising or {}, callbacks=callbacks, app_kwargs=app_kwargs or {}))
+                      raising=raising or {}, callbacks=callbacks, app_kwargs=app_kwargs or {}, url=url))
 
     ok = lambda *script, **kw: dict(outcome="ok", script=list(script), **kw)  # noqa
     msg = (1.0, "frames", text("hello"))
@@ -89,11 +89,23 @@ def scenarios(W):
     add("close-from-on_ping-mute-server", mute, "own-close", hooks={"on_ping": closer})
     add("ping-timeout-mute-server", [ok(msg, pong=None, answer_close=False)], "error", run_kwargs=dict(ping_interval=3, ping_timeout=1))
     add("illegal-frame-mute-server", [ok(msg, (2.0, "frames", bytes([0xC1, 0x01, 0x41])), answer_close=False)], "error")
+    # ... and over TLS (a silent peer never sends a TLS close_notify either)
+    add("close-from-on_message-mute-server-tls", mute, "own-close", hooks={"on_message": closer}, url="wss://app.test/")
+    add("ping-timeout-mute-server-tls", [ok(msg, pong=None, answer_close=False)], "error", run_kwargs=dict(ping_interval=3, ping_timeout=1), url="wss://app.test/")
+    add("illegal-frame-mute-server-tls", [ok(msg, (2.0, "frames", bytes([0xC1, 0x01, 0x41])), answer_close=False)], "error", url="wss://app.test/")
+    add("server-close-code-reason-tls", [ok(msg, (2.0, "close", b"\x0f\xa0going away"))], "close-frame", (4000, "going away"), url="wss://app.test/")
     stream = [(0.5 + 0.4 * i, "frames", text("tick%d" % i)) for i in range(200)]
     add("close-from-on_message-streaming-mute-server", [ok(*stream, answer_close=False)], "own-close", hooks={"on_message": closer})
     add("illegal-frame-streaming-mute-server", [ok((0.2, "frames", bytes([0xC1, 0x00])), *stream, answer_close=False)], "error")
     add("server-close-with-keepalive", [ok(msg, (7.0, "close", b"\x03\xe8"), pong=0.1)], "close-frame", (1000, ""), run_kwargs=dict(ping_interval=2, ping_timeout=1))
     add("eof-with-keepalive", [ok(msg, (7.0, "eof"), pong=0.1)], "error", run_kwargs=dict(ping_interval=2, ping_timeout=1))
+    # --- a run that lost its first connection, reconnected (reconnect=1) and then ended through the server's close frame: the ping
+    #     thread of the lost connection is gone as well (an error was reported on the way, so the run returns True) ---
+    for how in ("eof", "reset"):
+        for interval in (30, 2):
+            add(f"reconnect-keepalive-{how}-then-server-close-interval{interval}",
+                [ok(msg, (2.0, how), pong=0.1), ok(msg, (2.5, "close", b"\x03\xe8bye"), pong=0.1)], "error", (1000, "bye"),
+                run_kwargs=dict(ping_interval=interval, reconnect=1))
     # --- user callback raising (not an ending by itself) then server close ---
     boom = lambda: RuntimeError("boom")  # noqa
     for cb in ("on_open", "on_message", "on_data", "on_ping"):
@@ -227,7 +239,8 @@ def run_scenario(res, W, sc, strategy, tag, with_second=True, dispatcher_kind=No
                     S.arm(line_points=line_points)
                 return []
             app_kwargs["header"] = header_hook
-        run = appsim.AppRun(plan, hooks=hooks, raising=sc["raising"], callbacks=sc["callbacks"], app_kwargs=app_kwargs, last_repeats=False)
+        run = appsim.AppRun(plan, hooks=hooks, raising=sc["raising"], callbacks=sc["callbacks"], app_kwargs=app_kwargs, last_repeats=False,
+                            **({"url": sc["url"]} if sc.get("url") else {}))
         out["run"] = run
         run.build()
         if closer_at is not None:
